@@ -129,10 +129,33 @@ def all_names():
     return list(FUNCS) + list(VARIANTS)
 
 
-def enumerate_states(names=None):
+# relative placements: for the polygon/box functions the second primitive is additionally translated so that every
+# vertex / edge / face region of one primitive faces the other one
+SHIFTS = [np.zeros(3)] + [np.array(v, dtype=float) for v in
+                          [(1.5, 0, 0), (-1.5, 0, 0), (0, 1.5, 0), (0, -1.5, 0), (0, 0, 1.5), (0, 0, -1.5), (1.5, -1.5, 0.5), (-1.2, 1.3, -0.4),
+                           (1.5, 1.5, 0), (-1.5, -1.5, 0), (-1.5, 1.5, 0.25)]]
+SHIFTED_FUNCS = {"triangle_to_triangle", "triangle_to_rectangle", "rectangle_to_rectangle", "rectangle_to_box", "line_to_box",
+                 "line_segment_to_box", "line_segment_to_rectangle", "line_segment_to_triangle", "line_to_rectangle", "line_to_triangle",
+                 "line_segment_to_line_segment", "plane_to_box", "plane_to_rectangle", "plane_to_triangle"}
+
+
+def shifted(B, k):
+    """The k-th translated copy of primitive B."""
+    if k == 0:
+        return B
+    from .props import c12
+    G = np.eye(4)
+    G[:3, 3] = SHIFTS[k]
+    return c12.transform_prim(B, G)
+
+
+def enumerate_states(names=None, shifts=True):
     states = []
     for name in (names or all_names()):
         ka, kb = FUNCS.get(name, VARIANTS.get(name))
         for i in range(len(alph(ka))):
-            states.append({"fn": name, "i": i})
+            states.append({"fn": name, "i": i, "shift": 0})
+            if shifts and name in SHIFTED_FUNCS:
+                for k in range(1, len(SHIFTS)):
+                    states.append({"fn": name, "i": i, "shift": k})
     return states
